@@ -24,6 +24,7 @@ structure HdrParsed (h : ExtHdr) : Prop where
   len : h.lenField = h.data.length
   aligned : (h.data.length + 2) % 8 = 0
   fits : h.data.length + 2 ≤ 2048
+  ext : (isExtensionHeader h.option && h.option != NO_NEXT_HEADER) = true
 
 /-- invariant of every IPv6 object reachable by parsing or through the API -/
 structure Inv (p : Ipv6) : Prop where
@@ -103,7 +104,8 @@ theorem jumboAdjust_spec (apl cur : Nat) (c : Cursor) (n : Nat) (hi : c.Inv) (hn
 
 /-- **one extension header**: the stream advances by the header's size (at least 8 bytes), the invariant survives, the
     stored header has the parser's shape, the state stays in range — or `malformed_packet` -/
-theorem extStep_spec (c : Cursor) (st : LoopSt) (hi : c.Inv) (hcur : st.cur < 256) (ha : st.apl < 4294967296) :
+theorem extStep_spec (c : Cursor) (st : LoopSt) (hi : c.Inv) (hcur : st.cur < 256) (ha : st.apl < 4294967296)
+    (hext : (isExtensionHeader st.cur && st.cur != NO_NEXT_HEADER) = true) :
     (∃ c' st', extStep c st = .ok (c', st') ∧ c'.Inv ∧ c'.size + 8 ≤ c.size ∧ st'.cur < 256 ∧ st'.apl < 4294967296 ∧
         ∃ h, st'.hs = st.hs ++ [h] ∧ HdrParsed h ∧ h.option = st.cur)
     ∨ extStep c st = .throw .malformedPacket := by
@@ -123,7 +125,7 @@ theorem extStep_spec (c : Cursor) (st : LoopSt) (hi : c.Inv) (hcur : st.cur < 25
           · left
             simp only [e3, pure]
             refine ⟨c3, _, rfl, i3, by omega, ht, by simp only [sub32]; omega, ⟨st.cur, (l + 1) * 8 - 2, d⟩, rfl, ?_, rfl⟩
-            refine ⟨⟨hcur, ?_, ?_⟩, ?_, ?_, ?_⟩ <;> simp only [hdl] <;> omega
+            refine ⟨⟨hcur, ?_, ?_⟩, ?_, ?_, ?_, hext⟩ <;> simp only [hdl] <;> omega
           · omega
         · right; simp [ea]
       · right; simp [hcr]
@@ -161,7 +163,8 @@ theorem parseLoop_spec (fuel : Nat) (c : Cursor) (st : LoopSt) (hi : c.Inv) (hf 
     by_cases hb : c.toBool = true
     · simp only [hb, Bool.not_true, Bool.false_eq_true, if_false]
       split
-      · rcases extStep_spec c st hi hcur ha with ⟨c', st', e, i', hs', hc', ha', h, hh, hp, _⟩ | e
+      · rename_i hext
+        rcases extStep_spec c st hi hcur ha hext with ⟨c', st', e, i', hs', hc', ha', h, hh, hp, _⟩ | e
         · simp only [e, bind, Out.bind]
           have hhs' : ∀ x ∈ st'.hs, HdrParsed x := by
             intro x hx
